@@ -87,6 +87,12 @@ def cases(tier, seed):
     for (fam, ps), (pre, incr, fn) in itertools.product(PROG_DISTS, PROG_INCR):
         for exact in (True, False):
             out.append({"input": {"kind": "program", "family": fam, "params": ps, "pre": pre, "incr": incr, "fn": fn, "exact": exact}})
+    # moments of very small magnitude (closed forms for Normal / constants): the documented rounding keeps 20 significant
+    # digits, so the RELATIVE error is what is judged
+    for exact in (True, False):
+        for spec in (("Exp", ["-60", "4"], 1), ("Exp", ["-30", "1"], 2), ("Cos", ["0", "100"], 1), ("Sin", ["1", "81"], 1),
+                     ("Cos", ["2", "64"], 2), ("ExpConst", ["-55"], 1), ("ExpConst", ["-70"], 1)):
+            out.append({"input": {"kind": "tiny", "func": spec[0], "params": spec[1], "power": spec[2], "exact": exact}})
     # conditioned argument must be rejected (or right)
     out.append({"input": {"kind": "program_cond", "exact": True}})
     # a functional variable defined from a draw in the init block, the drawn variable re-drawn in the loop (2 goals, one builder)
@@ -106,6 +112,10 @@ def cases(tier, seed):
             # branch of an if/else whose other branch rescales the variable
             for shape in ("after_poly", "after_func", "before_poly", "ifelse"):
                 out.append({"input": {"kind": "program_condfunc", "func": func, "fn": fn, "exact": exact, "shape": shape}})
+            # ... and with conditions turned into arithmetic (--cond2arithm)
+            if exact:
+                for shape in (None, "after_poly", "ifelse"):
+                    out.append({"input": {"kind": "program_condfunc", "func": func, "fn": fn, "exact": exact, "shape": shape, "c2a": True}})
     return out
 
 
@@ -133,7 +143,7 @@ def run_case(case):
     from .. import polar
     from program.assignment import FunctionalAssignment
 
-    polar.reset_settings(exact_func_moments=bool(inp.get("exact", False)))
+    polar.reset_settings(exact_func_moments=bool(inp.get("exact", False)), cond2arithm=bool(inp.get("c2a", False)))
     try:
         if kind in ("trig", "exp", "mix"):
             fam, ps = inp["family"], inp["params"]
@@ -246,6 +256,8 @@ def run_case(case):
             res = run_program_lag(inp, stats, res)
         elif kind == "program_init":
             res = run_program_init(inp, stats, res)
+        elif kind == "tiny":
+            res = run_tiny(inp, stats, res)
         elif kind == "program_condfunc":
             res = run_program_condfunc(inp, stats, res)
         else:
@@ -373,6 +385,50 @@ def run_program_init(inp, stats, res):
     var = m2 - mu ** 2
     return _solve_and_compare(text, [("y", lambda n: n * ms * mu), ("y**2", lambda n: ms2 * (n * var + n * n * mu ** 2)),
                                      ("s", lambda n: ms)], stats, res, inp["exact"])
+
+
+def run_tiny(inp, stats, res):
+    """E(f(X)^k) for X ~ Normal(mu, s2) (or f of a constant) where the true value is below 1e-20: closed forms
+    E exp(kX) = exp(k mu + k^2 s2/2);  E cos X = exp(-s2/2) cos mu;  E sin X = exp(-s2/2) sin mu;
+    E cos^2 X = (1 + exp(-2 s2) cos 2mu)/2 (not tiny: control).  Relative tolerance 1e-15."""
+    import mpmath as mp
+    from program.assignment import FunctionalAssignment
+
+    func, ps, k = inp["func"], inp["params"], inp["power"]
+    res["sample"] = dict(inp)
+    try:
+        if func == "ExpConst":
+            fa = FunctionalAssignment("y", "Exp", ps[0])
+            with cpu_limit(20):
+                got = fa.get_const_moment(k)
+            want = mp.e ** (k * mp.mpf(ps[0]))
+        else:
+            mu, s2 = mp.mpf(ps[0]), mp.mpf(ps[1])
+            dist = _polar_dist("Normal", ps)
+            powers = {func: k}
+            with cpu_limit(20):
+                got = FunctionalAssignment.get_func_moment(dist, powers)
+            if func == "Exp":
+                want = mp.e ** (k * mu + k * k * s2 / 2)
+            elif func == "Cos" and k == 1:
+                want = mp.e ** (-s2 / 2) * mp.cos(mu)
+            elif func == "Sin" and k == 1:
+                want = mp.e ** (-s2 / 2) * mp.sin(mu)
+            else:
+                want = (1 + mp.e ** (-2 * s2) * mp.cos(2 * mu)) / 2
+    except CpuTimeout:
+        stats["refusals"]["timeout"] = 1
+        return res
+    except Exception as e:
+        stats["refusals"][exc_name(e)] = 1
+        return res
+    stats["evaluations"] += 1
+    stats["distinct_nontrivial"] = 1
+    gv = _to_mp(got)
+    if abs(gv - want) > mp.mpf("1e-15") * abs(want):
+        res["violations"].append({"sub": "tiny-moment", "detail": {"func": func, "params": ps, "power": k, "exact_mode": inp["exact"],
+                                                                 "polar": mp.nstr(gv, 25), "true": mp.nstr(want, 25)}})
+    return res
 
 
 def run_program_condfunc(inp, stats, res):
